@@ -32,14 +32,15 @@ const (
 type c11Op struct {
 	kind string // init, call, gated, release, get, delete, close, advance
 	sess int    // session slot (0,1) or -1 for an unknown id
-	user string // "", u1, u2
+	user string // "" (anonymous) or a user id
 	d    time.Duration
 	name string
 }
 
 func c11Ops() []c11Op {
 	var ops []c11Op
-	users := []string{"", "u1", "u2"}
+	// two authenticated users whose ids differ in letter case only: different users all the same
+	users := []string{"", "Kim", "kim"}
 	for _, u := range users {
 		ops = append(ops, c11Op{kind: "init", user: u, name: "POST initialize as " + c11U(u)})
 	}
